@@ -14,6 +14,11 @@ Check(r) ==
                             bk == IF r.alg = "seal" THEN BoxKeySalsa(r.pk, r.esk) ELSE BoxKeyChaCha(r.pk, r.esk)
                             x == IF r.alg = "seal" THEN SecretboxXSalsa(bk.k, SealNonce(epk, r.pk), r.m) ELSE SecretboxXChaCha(bk.k, SealNonce(epk, r.pk), r.m)
                         IN r.out = epk \o x.t \o x.c /\ r.open_ok /\ r.short_rejected
+    \* AEGIS-128L with associated data of 2^29 bytes and more: the state after the associated data comes from the harness's own absorber,
+    \* which "aegis_absorb" records validate against the specification on short data; the rest (message, lengths, tag) is evaluated here
+    [] r.op = "aegis_absorb" -> r.S = (IF r.alg = "aegis256" THEN AG!AbsorbAd256(r.k, r.n, r.ad) ELSE AG!AbsorbAd128L(r.k, r.n, r.ad))
+    [] r.op = "aegis_huge" -> r.ret = 0 /\ r.dec_ok
+                              /\ r.out = (IF r.alg = "aegis256" THEN AG!Aegis256FromState(r.S, r.adlen8, r.m) ELSE AG!Aegis128LFromState(r.S, r.adlen8, r.m))
 Bad == {i \in 1..Len(Recs) : ~Check(Recs[i])}
 ASSUME PrintT(<<"ORACLE", Len(Recs), ToJson(SetToSeq(Bad))>>)
 =============================================================================
